@@ -197,6 +197,9 @@ func genHarness(dir string) error {
 			continue
 		}
 		m := fd.Name.Name
+		if refs["manual_"+m] {
+			continue // judged by a hand-written G_Extra_ harness only (more than one right outcome)
+		}
 		if !refs["ref_"+m] {
 			return fmt.Errorf("no reference function ref_%s for generated function %s", m, m)
 		}
